@@ -524,6 +524,10 @@ impl Instant {
     }
 
     pub fn elapsed(&self) -> Duration {
+        #[cfg(prometheus_verif)]
+        if let Some(d) = crate::verif_sync::take_elapsed_override() {
+            return d;
+        }
         match self {
             // We use `saturating_duration_since` to avoid panics caused by non-monotonic clocks.
             Instant::Monotonic(i) => StdInstant::now().saturating_duration_since(*i),
